@@ -1,6 +1,6 @@
 // composite drives runnables/composite for the properties C09, C10, C11.
 //
-//	-mode batch -family c10|c11|c11dup|c09|f8|boot -n N -seed S   generate N scenarios, run each in a
+//	-mode batch -family c10|c11|c11dup|c09|f8|boot|stale|errwin|multifail|failreload|stoperr|churn -n N -seed S   generate N scenarios, run each in a
 //	      child process under a watchdog, print one CASE block per scenario for ocaml/composite.ml
 //	-one <json>            run one scenario in this process (used by batch and by replays)
 //	-mode script -file f   run the scenario stored in a file through the batch machinery (replay)
@@ -97,6 +97,10 @@ func generate(family string, n int, seed uint64) []Scenario {
 			out = append(out, genErrWin(rr, i))
 		case "multifail":
 			out = append(out, genMultiFail(rr, i))
+		case "failreload":
+			out = append(out, genFailReload(rr, i))
+		case "stoperr":
+			out = append(out, genStopErr(rr, i))
 		case "churn":
 			out = append(out, genChurn(rr, i))
 		case "boot":
